@@ -47,6 +47,24 @@ func formatVerdict(fs *simfs.FS, m *refmodel.LogModel) *common.Failure {
 			payloads = append(payloads, g.Entries...)
 			offsets = append(offsets, g.EntryOffsets...)
 		}
+		// "Index frames are written only when the segment is sealed and a commit frame follows": the
+		// committed chain of a file holds at most one, and then in its last batch
+		nIdx, lastIdxGroup := 0, -1
+		for gi, g := range groups {
+			if g.HasIndex {
+				nIdx++
+				lastIdxGroup = gi
+			}
+		}
+		if nIdx > 1 || (nIdx == 1 && sealed && lastIdxGroup != len(groups)-1) {
+			var at []int
+			for _, g := range groups {
+				if g.HasIndex {
+					at = append(at, g.IndexOffset)
+				}
+			}
+			return common.Failf("after-faults/index-frames", "%s (sealed=%v): the committed chain holds %d index frame(s) at offsets %v in %d batches; the format allows one, in the final batch of a sealed segment", name, sealed, nIdx, at, len(groups))
+		}
 		if len(payloads) < need {
 			return common.Failf("after-faults/independent-decoder-short", "%s must hold entries %d..%d (%d entries; sealed=%v) but a decoder following the README recovers only %d up to offset %d and then stops: %v", name, si.BaseIndex, hi, need, sealed, len(payloads), committed, derr)
 		}
